@@ -1377,7 +1377,13 @@ class Machine:
             return UNKNOWN
         if m("<impl [T]>::iter_mut", "Vec::iter_mut", "SmallVec::iter_mut"):
             # elements that are themselves containers are aliased; scalar elements get a slot pointer
-            return Iter([x if isinstance(x, (list, Enum, Map)) else ListSlot(a0, i) for i, x in enumerate(a0)]) if isinstance(a0, list) else UNKNOWN
+            if not isinstance(a0, list):
+                return UNKNOWN
+            absint.SLOT_PTR[0] = ListSlot
+            for i, x in enumerate(a0):
+                if isinstance(x, (list, Enum)):
+                    absint.SLOT_OF[id(x)] = (a0, i)
+            return Iter([x if isinstance(x, (list, Enum, Map)) else ListSlot(a0, i) for i, x in enumerate(a0)])
         if m("<impl [T]>::iter", "SmallVec::iter", "Vec::iter"):
             return Iter(a0) if isinstance(a0, list) else UNKNOWN
         if m("HashMap::iter", "HashMap::into_iter", "HashMap::drain"):
